@@ -93,11 +93,17 @@ class Gen:
                 row = []
                 for ci in range(cols):
                     e = ET.SubElement(mr, M + "e")
-                    # the last cell ranges over the simple child alphabet, the others hold a token
+                    # the last cell ranges over the simple child alphabet, the others hold a token; the
+                    # first cell may be empty (sparse / diagonal matrices)
                     last = (ri == rows - 1 and ci == cols - 1)
-                    row.append(self.node(e, depth - 1, simple=True) if last else self.run(e, ["Q"]))
+                    if ri == 0 and ci == 0 and not last and ctx.flag(self.nm("empty_first_cell")):
+                        row.append(("empty",))
+                    else:
+                        row.append(self.node(e, depth - 1, simple=True) if last else self.run(e, ["Q"]))
+                    desc.setdefault("cells", []).append(e)
                 grid.append(row)
             desc["grid"] = grid
+            desc["shape"] = (rows, cols)
             return desc
         # property child with optional chr / begChr / endChr, attribute present or absent
         if kind in ("nary", "acc"):
@@ -217,6 +223,16 @@ def k1_tree(ctx):
     if not g.malformed_rad:
         for d in descs:
             _check_template(ctx, m, d, out if len(descs) == 1 else None, xml)
+        if len(descs) > 1:
+            # no documented malformed radical in the formula: what follows an element does not change how it is
+            # rendered - the whole is the concatenation of the top-level children converted one by one
+            parts_ = []
+            for child in list(root):
+                solo = ET.Element(M + "oMath")
+                solo.append(child)
+                parts_.append(m.omml_to_latex(solo))
+            ctx.require(out == "".join(parts_), "siblings-not-rendered-independently", xml=xml, out=out,
+                        one_by_one=parts_)
 
 
 def _conv(m, slot_entry):
@@ -299,8 +315,21 @@ def _check_template(ctx, m, d, whole, xml):
             return
         exp = "%s{%s}" % (name, c("e"))
     elif kind == "m":
-        rows = []
-        # matrix cells: converter on each m:e
+        # documented form: \begin{matrix} rows \end{matrix}, rows separated by \\ and cells by & - every
+        # cell keeps its slot, an empty one too
+        rows, cols = d["shape"]
+        cells = [m.omml_to_latex(e) for e in d["cells"]]
+        if any(("&" in c_ or "\\\\" in c_ or "matrix" in c_) for c_ in cells):
+            return
+        ctx.require(whole.startswith("\\begin{matrix}") and whole.endswith("\\end{matrix}"), "matrix-form",
+                    out=whole, xml=xml)
+        ctx.require(whole.count("&") == rows * (cols - 1) and whole.count("\\\\") == rows - 1, "matrix-form",
+                    out=whole, xml=xml, rows=rows, cols=cols)
+        p = 0
+        for c_ in cells:
+            q = whole.find(c_, p)
+            ctx.require(q >= 0, "matrix-cell-missing", out=whole, xml=xml)
+            p = q + len(c_)
         return
     if exp is not None:
         if ctx.perturb == "frac_swapped" and kind == "f":
